@@ -47,6 +47,10 @@ TEXT = {
         "level": "Proof: execute_once returns Ok without awaiting termination exactly when termination was received or no root reported an actual service; a root counts as service root iff its Ok{Service} had actual; build actors answer service requests with actual=false, service actors with true, aggregates with 'some dependency reported actual'; at most one child of a service actor is live and restart stops before it spawns; the service actor ends with its child killed and waited.",
         "note": ACT_NOTE,
     },
+    "C12": {
+        "level": "Proof of a frame condition over a ghost deletion log, for every target map and flag combination: every deletion made by the clean part of main is (a) a file of the listing of an output resource with extensions, (b) a declared output path of a resource without extensions, (c) the state file of a target of the resolved map (only with --clean T...), or (d) <project_dir>/.zinoma of a loaded project (only with --clean alone); without --clean nothing is deleted; with --clean alone the engine is not started; delete_saved_env_state removes exactly the target's own record (INC), so by C02.needs-record a cleaned target cannot be skipped.",
+        "note": "Assumed: the listing function and remove_file/remove_dir_all as ghost-world operations, in particular that neither follows symbolic links (A-fs); clap flags (A-clap); derived Hash/Eq (A-hash); vstd specs incl. HashMap::values iteration (A-std).",
+    },
     "C16": {
         "level": "Proof, for every path and event: is_tmp_editor_file is total (no unwrap: a path without file name is not a temporary; non-UTF-8 names are decoded lossily) and equals `*~` or (`.*` and (`*.swp` or `*.swx`)); the event filter is exactly not-temporary and not-under-.zinoma and extension-match; a notify error or an event without relevant path sends nothing, an event with a relevant path does exactly one try_send whose full-slot result is not an error; a missing watched path is skipped, every declared path is handed to notify.",
         "note": "Assumed: str/Path predicates are uninterpreted (A-str; their byte-level bodies are only exercised by bounded Kani harnesses), notify delivers events for paths existing at watch() time (A-notify), iterator adapters filter/collect (A-all), capacity-1 channel try_send (A-chan).",
